@@ -434,7 +434,7 @@ func Run(cs Case, c *vrt.Ctx) {
 	for _, p := range parts {
 		var o outcome
 		in := cs
-		in.Input = append([]byte(nil), cs.Input...)
+		in.Input = gx.Exact(cs.Input)
 		pv, stack := vrt.Catch(func() { o = p.f(in) })
 		if pv != nil {
 			c.Fail("panic", p.name, fmt.Sprintf("%v at %s on %q", pv, stack, clip(cs.Input)))
